@@ -176,6 +176,26 @@ def run_instance(cid, inst_index, tier, seed=0, repo_src=None, native_trials=0, 
             res["obligations"].append(rec)
             if r.status != "proved":
                 failed.append((oid, ob, r, pi))
+    # obligations left open (unknown, not refuted) get one more attempt with three times the budgets: verdicts
+    # must not flip because the machine is busy (at most 8 per instance, so changed trees stay affordable)
+    if failed:
+        still, retried = [], 0
+        for oid, ob, r, pi in failed:
+            if r.status == "unknown" and retried < 8:
+                retried += 1
+                vc.SCALE = 3.0
+                try:
+                    r2 = vc.discharge(ctxs[pi].hyps[: ob.nhyps], ob.goal)
+                finally:
+                    vc.SCALE = 1.0
+                res["solver_s"] += r2.secs
+                if r2.status == "proved":
+                    for rec in res["obligations"]:
+                        if rec["id"] == oid:
+                            rec.update(status="proved", backend=r2.backend + "/retry", secs=round(rec["secs"] + r2.secs, 4))
+                    continue
+            still.append((oid, ob, r, pi))
+        failed = still
     bounded_clauses = set()
     for ctx in ctxs:
         bounded_clauses |= ctx.memo.get("bounded_clauses", set())
